@@ -27,7 +27,15 @@ class T(py2lean.Translator):
             a, b = off(idx[0], "i"), off(idx[1], "j")
             return ("var", "p_%s%d_%s%d" % ("m" if a < 0 else "p", abs(a), "m" if b < 0 else "p", abs(b)))
         if isinstance(node, ast.Subscript) and isinstance(node.value, ast.Name) and node.value.id in ("R", "Z"):
-            return ("var", "%s_%s" % (node.value.id, "".join(c for c in ast.unparse(node.slice) if c.isalnum())))
+            idx = node.slice.elts if isinstance(node.slice, ast.Tuple) else [node.slice]
+            parts = []
+            for e in idx:
+                try:
+                    v = int(ast.literal_eval(e))
+                except Exception:
+                    raise py2lean.Unsupported("non-constant index into %s" % node.value.id)
+                parts.append(("m%d" % -v) if v < 0 else str(v))
+            return ("var", "%s_%s" % (node.value.id, "_".join(parts)))
         return super().expr(node, env)
 
 
@@ -67,7 +75,17 @@ def generate(repo=None):
         name = st.targets[0].id
         if name in ("d2dr2", "d2dz2", "d2drdz", "D"):
             env2[name] = tr2.expr(st.value, {k: v for k, v in env2.items()})
-    return {k: fold(env2[k]) for k in ("d2dr2", "d2dz2", "d2drdz", "D")}
+    out = {k: fold(env2[k]) for k in ("d2dr2", "d2dz2", "d2drdz", "D")}
+    # the point the O-points are ranked against: Rmid, Zmid as functions of corner values of the R, Z arrays (indices kept in the names)
+    tr3 = T()
+    for st in assigns:
+        name = st.targets[0].id
+        if name in ("Rmid", "Zmid"):
+            out[name] = fold(tr3.expr(st.value, {}))
+    for name in ("Rmid", "Zmid"):
+        if name not in out:
+            raise py2lean.Unsupported("no live assignment to %s found" % name)
+    return out
 
 
 def emit(d):
@@ -78,6 +96,14 @@ def emit(d):
             fv = sorted(py2lean.free_vars(d[k]))
             L.append("/-- `%s` of the classification stencil; p_<a>_<b> = psi[i+a, j+b] (m = minus, p = plus) -/" % k)
             L.append("%sdef %s (%s : %s) : %s :=\n  %s" % (nc, k, " ".join(fv), ty, ty, py2lean.pr(d[k], mode)))
+        for k in ("Rmid", "Zmid"):
+            fv = sorted(py2lean.free_vars(d[k]))
+            L.append("/-- `%s`: the point the O-points are ranked against; %s_<i>_<j> = %s[i, j] of the (nR, nZ) coordinate array (m = minus) -/" % (k, k[0], k[0]))
+            L.append("%sdef %s (%s : %s) : %s :=\n  %s" % (nc, k, " ".join(fv), ty, ty, py2lean.pr(d[k], mode)))
+            if mode == "R":
+                idx = [tuple((-int(t[1:]) if t.startswith("m") else int(t)) for t in v.split("_")[1:]) for v in fv]
+                L.append("/-- the array entries `%s` reads, in the order of its arguments -/" % k)
+                L.append("def %s_entries : List (Int × Int) := [%s]" % (k, ", ".join("(%d, %d)" % t for t in idx)))
         L += ["", "end %s" % ns, ""]
     return "\n".join(L)
 
